@@ -533,3 +533,83 @@ def gen_c06(ch, prof):
     sc['t_end_ns'] = 120 * SEC
     sc['max_steps'] = 400_000
     return sc
+
+
+POLICIES = ('all', 'clean', 'error', 'none')
+FLAGS = {'all': 3, 'clean': 1, 'error': 2, 'none': 0}
+
+C08_CAUSES = ('exit_process', 'raise_process', 'stop', 'exit_setup', 'raise_setup', 'raise_init', 'exit_shutdown',
+              'raise_shutdown', 'raise_send', 'raise_recv', 'exit_after_secs', 'exit_after_str', 'exit_after_at')
+
+
+def gen_c08(ch, prof):
+    """One filter ends for one cause; every filter has its own propagate / obey policy."""
+    topo = ch.pick('gen', ['chain', 'tee', 'rejoin'])
+    sc = {'shape': 'life-' + topo, 'profile': 'c08', 'nodes': {}, 'order': [],
+          'knobs': {'net': {'lat_min_ns': 50_000, 'lat_max_ns': ch.pick('gen', [2, 1, 10, 30]) * MS,
+                            'conn_max_ns': ch.pick('gen', [5, 1, 50]) * MS},
+                    'idle_cost_ns': 20_000}}
+    nodes, order = sc['nodes'], sc['order']
+
+    def add(nid, spec):
+        spec['prop_exit'] = POLICIES[ch.weighted('gen', [3, 3, 2, 2])]
+        spec['obey_exit'] = POLICIES[ch.weighted('gen', [4, 2, 2, 2])]
+        nodes[nid] = spec
+        order.append(nid)
+        return spec
+
+    add('a', {'src': True, 'n_frames': 10 ** 9, 'period_ns': ch.pick('gen', [50, 20, 100]) * MS,
+              'out': [{'name': 'main'}], 'form': ch.pick('gen', ['dict', 'callable'])})
+    proc = lambda: [ch.pick('gen', [0, 5, 40]) * MS]
+    if topo == 'chain':
+        add('b', {'sources': [{'from': 'a', 'sub': None}], 'out': [{'name': 'main'}], 'proc_ns': proc()})
+        add('c', {'sources': [{'from': 'b', 'sub': None}], 'has_output': False, 'proc_ns': proc()})
+    elif topo == 'tee':
+        add('b', {'sources': [{'from': 'a', 'sub': None}], 'has_output': False, 'proc_ns': proc()})
+        add('c', {'sources': [{'from': 'a', 'sub': None}], 'has_output': False, 'proc_ns': proc()})
+    else:
+        add('b', {'sources': [{'from': 'a', 'sub': None}], 'out': [{'name': 'b'}], 'proc_ns': proc()})
+        add('c', {'sources': [{'from': 'a', 'sub': None}], 'out': [{'name': 'c'}], 'proc_ns': proc()})
+        add('j', {'sources': [{'from': 'b', 'sub': None}, {'from': 'c', 'sub': None}], 'has_output': False,
+                  'proc_ns': proc()})
+    x = ch.pick('gen', order)
+    cause = ch.pick('gen', list(C08_CAUSES))
+    if cause == 'raise_recv' and nodes[x].get('src'):
+        cause = 'raise_send'
+    t_ms = ch.rng_int('gen', 1500, 3000)
+    early = ch.chance('gen', 1, 4)
+    k = ch.rng_int('gen', 0, 1) if early else ch.rng_int('gen', 8, 20)
+    spec = nodes[x]
+    faults = []
+    sc['x'] = x
+    sc['cause'] = cause
+    sc['t_cause_ms'] = t_ms
+    if cause in ('exit_process', 'raise_process'):
+        spec['inject'] = [{'stage': 'process', 'k': k, 'what': cause.split('_')[0]}]
+        sc['early'] = early
+    elif cause in ('exit_setup', 'raise_setup'):
+        spec['inject'] = [{'stage': 'setup', 'what': cause.split('_')[0]}]
+        sc['early'] = True
+    elif cause == 'raise_init':
+        spec['inject'] = [{'stage': 'init', 'what': 'raise'}]
+        sc['early'] = True
+    elif cause in ('exit_shutdown', 'raise_shutdown'):
+        spec['inject'] = [{'stage': 'shutdown', 'what': cause.split('_')[0]}]
+        faults.append({'kind': 'stop', 'node': x, 'at_ns': t_ms * MS, 'plus_steps': ch.rng_int('fault', 0, 30)})
+    elif cause == 'stop':
+        faults.append({'kind': 'stop', 'node': x, 'at_ns': t_ms * MS, 'plus_steps': ch.rng_int('fault', 0, 30)})
+    elif cause in ('raise_send', 'raise_recv'):
+        faults.append({'kind': 'sock_error', 'node': x, 'op': cause.split('_')[1], 'at_ns': t_ms * MS,
+                       'plus_steps': ch.rng_int('fault', 0, 30)})
+    elif cause == 'exit_after_secs':
+        spec['exit_after'] = ch.pick('gen', [t_ms / 1000, t_ms // 1000])
+    elif cause == 'exit_after_str':
+        spec['exit_after'] = ch.pick('gen', [f'0:{t_ms / 1000:.3f}', f'0:0:{t_ms // 1000}', f'{t_ms / 1000:.1f}'])
+    elif cause == 'exit_after_at':
+        spec['exit_after'] = '@+' + str(t_ms)      # resolved to an absolute wall-clock text by the world at start
+    sc['faults'] = faults
+    sc['n_frames'] = 10 ** 9
+    sc['settle_ns'] = 10 ** 18
+    sc['t_end_ns'] = 30 * SEC
+    sc['max_steps'] = 200_000
+    return sc
